@@ -789,6 +789,130 @@ func c26Corpus() []c26Input {
 	}
 }
 
+// ---- large backlogs.  The histories above keep the number of stored-but-unreceived items small; these vary it over
+// orders of magnitude: bursts of enqueues without receiving, partial drains, delete_range into the backlog, more
+// enqueues while a backlog exists, full drains inside the open, then the usual restart and drain.
+
+type c26Hist struct {
+	in     c26Input
+	hi     uint64
+	stored []uint64
+	ctr    int
+}
+
+func (h *c26Hist) enq(k uint64) {
+	h.ctr++
+	h.in.Ops = append(h.in.Ops, c26Op{T: "enq", K: k, D: fmt.Sprintf("d%d", h.ctr)})
+	if k > h.hi {
+		h.hi = k
+		h.stored = append(h.stored, k)
+	}
+}
+func (h *c26Hist) fresh(step uint64) { h.enq(h.hi + step) }
+func (h *c26Hist) take(n int) {
+	for i := 0; i < n; i++ {
+		h.in.Ops = append(h.in.Ops, c26Op{T: "take"})
+	}
+}
+func (h *c26Hist) del(k uint64) {
+	h.in.Ops = append(h.in.Ops, c26Op{T: "del", K: k})
+	var keep []uint64
+	for _, s := range h.stored {
+		if s > k {
+			keep = append(keep, s)
+		}
+	}
+	h.stored = keep
+}
+func (h *c26Hist) finish(reopenFirst bool) c26Input {
+	if !reopenFirst {
+		h.take(len(h.stored) + 1) // everything owed in this open, and one more
+	}
+	h.in.Ops = append(h.in.Ops, c26Op{T: "reopen"})
+	h.take(len(h.stored) + 1)
+	return h.in
+}
+
+// the systematic family: a backlog of exactly b unreceived items, one more enqueue, room is made (one receive, or a
+// delete_range of the first item, or of the first half), another enqueue, full drain
+func c26BacklogSweep(b int, variant int) c26Input {
+	h := &c26Hist{hi: 0}
+	for i := 0; i < b; i++ {
+		h.fresh(1)
+	}
+	h.fresh(1)
+	switch variant {
+	case 0:
+		h.take(1)
+	case 1:
+		h.del(h.stored[0])
+	default:
+		h.take(1)
+		h.del(h.stored[len(h.stored)/2])
+	}
+	h.fresh(2)
+	h.take(2)
+	h.fresh(1)
+	return h.finish(false)
+}
+
+func c26GenBacklog(rng *rand.Rand) c26Input {
+	h := &c26Hist{}
+	if rng.Intn(4) == 0 {
+		h.hi = 1 << 40
+	}
+	// burst sizes over orders of magnitude
+	burst := func() int {
+		switch rng.Intn(4) {
+		case 0:
+			return 1 + rng.Intn(4)
+		case 1:
+			return 5 + rng.Intn(12)
+		case 2:
+			return 14 + rng.Intn(8) // around typical read-ahead sizes
+		}
+		return 20 + rng.Intn(61)
+	}
+	for round, rounds := 0, 1+rng.Intn(3); round < rounds; round++ {
+		for i, n := 0, burst(); i < n; i++ {
+			if rng.Intn(12) == 0 && h.hi > 3 {
+				h.enq(h.hi - uint64(rng.Intn(3))) // stale
+			} else {
+				h.fresh(uint64(1 + rng.Intn(2)))
+			}
+		}
+		// partial drain
+		if len(h.stored) > 0 {
+			h.take(1 + rng.Intn(len(h.stored)))
+		}
+		// delete_range into the backlog (or just below / above it)
+		if len(h.stored) > 0 && rng.Intn(3) > 0 {
+			k := h.stored[rng.Intn(len(h.stored))]
+			switch rng.Intn(6) {
+			case 0:
+				k--
+			case 1:
+				k = h.hi + uint64(rng.Intn(3))
+			}
+			h.del(k)
+		}
+		// more enqueues while (part of) the backlog is still unreceived, with a few receives in between
+		for i, n := 0, 1+rng.Intn(20); i < n; i++ {
+			h.fresh(uint64(1 + rng.Intn(2)))
+			if rng.Intn(5) == 0 {
+				h.take(1 + rng.Intn(3))
+			}
+		}
+		switch rng.Intn(4) {
+		case 0:
+			h.take(len(h.stored) + 1) // full drain inside the open
+		case 1:
+			h.in.Ops = append(h.in.Ops, c26Op{T: "reopen"})
+		}
+	}
+	return h.finish(rng.Intn(4) == 0)
+}
+
 func TestVerif_C26(t *testing.T) {
 	if p := os.Getenv("VERIF_C26_CHILD"); p != "" {
 		c26Child(p)
@@ -818,12 +942,34 @@ func TestVerif_C26(t *testing.T) {
 		c26Run(w, in, dir, id)
 		id++
 	}
-	n := vN(150, 3000)
+	// backlog sweep: every backlog size 1..40 (thorough: 1..120), three ways of making room
+	maxB := 40
+	if vTier() == "thorough" {
+		maxB = 120
+	}
+	for b := 1; b <= maxB; b++ {
+		for v := 0; v < 3; v++ {
+			if vTier() != "thorough" && v != b%3 && b != 16 && b != 17 && b != 32 && b != 33 {
+				continue // quick: one variant per size, all three around powers of two
+			}
+			c26Run(w, c26BacklogSweep(b, v), dir, id)
+			id++
+		}
+	}
+	nb := vN(10, 400)
+	for i := 0; i < nb; i++ {
+		c26Run(w, c26GenBacklog(rng), dir, id)
+		id++
+	}
+	n := vN(70, 3000)
 	for i := 0; i < n; i++ {
 		c26Run(w, c26Gen(rng, 10+rng.Intn(50), false), dir, id)
 		id++
+		w.mu.Lock()
+		w.w.Flush()
+		w.mu.Unlock()
 	}
-	nk := vN(20, 600)
+	nk := vN(14, 600)
 	for i := 0; i < nk; i++ {
 		c26Run(w, c26Gen(rng, 10+rng.Intn(40), true), dir, id)
 		id++
